@@ -319,11 +319,11 @@ func subBytesPrefix() mon.Sub {
 				}
 				switch l7 {
 				case 126:
-					mk(func(p []byte) { p[2], p[3] = 0x01, 0x00 })              // 256 minimal
-					mk(func(p []byte) { p[2], p[3] = 0xff, 0xff })              // 65535
-					mk(func(p []byte) { p[2], p[3] = 0x00, 126 })               // minimal edge
-					mk(func(p []byte) { p[2], p[3] = 0x00, 125 })               // non-minimal
-					mk(func(p []byte) { p[2], p[3] = 0x00, 0x00 })              // non-minimal zero
+					mk(func(p []byte) { p[2], p[3] = 0x01, 0x00 }) // 256 minimal
+					mk(func(p []byte) { p[2], p[3] = 0xff, 0xff }) // 65535
+					mk(func(p []byte) { p[2], p[3] = 0x00, 126 })  // minimal edge
+					mk(func(p []byte) { p[2], p[3] = 0x00, 125 })  // non-minimal
+					mk(func(p []byte) { p[2], p[3] = 0x00, 0x00 }) // non-minimal zero
 				case 127:
 					mk(func(p []byte) { copy(p[2:10], []byte{0, 0, 0, 0, 0, 1, 0, 0}) })                         // 65536 minimal
 					mk(func(p []byte) { copy(p[2:10], []byte{0x7f, 0xff, 0xff, 0xff, 0xff, 0xff, 0xff, 0xff}) }) // max
@@ -332,7 +332,7 @@ func subBytesPrefix() mon.Sub {
 					mk(func(p []byte) { copy(p[2:10], []byte{0x80, 0, 0, 0, 0, 0, 0, 5}) })                      // MSB small
 					mk(func(p []byte) { copy(p[2:10], []byte{0, 0, 0, 0, 0, 0, 0xff, 0xff}) })                   // non-minimal 65535
 					mk(func(p []byte) { copy(p[2:10], []byte{0, 0, 0, 0, 0, 0, 0, 0}) })                         // non-minimal 0
-					mk(func(p []byte) { p[2] &= 0x7f })                                                        // random, top bit clear
+					mk(func(p []byte) { p[2] &= 0x7f })                                                          // random, top bit clear
 				default:
 					mk(func(p []byte) {})
 				}
@@ -475,11 +475,11 @@ func main() {
 		Level:    "exploration",
 		Rule: "cases: (a) exhaustive grid Fin x Rsv x OpCode x Masked x 4 mask keys x 26 boundary lengths x 4 chunk plans, (b) random headers with log-uniform lengths, " +
 			"(c) all 65536 two-byte prefixes x every truncation / minimal / non-minimal / MSB form, (d) random byte strings, (e) pairs of whole frames (back to back, so an over- or under-read corrupts the second) across the 125/126, 65535/65536 and 1 MiB boundaries. " +
-			"(f) sequences of 2-5 random headers with payloads decoded by ONE streaming reader (validity checks off), each header compared with ws.ReadHeader over the same bytes - also after a non-final frame, when the reader considers a fragmented message open. A case is non-trivial when both decoders and the encoder were compared with the independent reference codec; distinct = distinct (flag bits, length form, chunk plan) or (reference classification, length code, mask bit, plan) classes.",
+			"(f) sequences of 2-5 random headers with payloads decoded by ONE streaming reader (validity checks off), each header compared with ws.ReadHeader over the same bytes - also after a non-final frame, when the reader considers a fragmented message open; (g) source kinds: sequences of 1-4 frames (payload lengths on the header-form thresholds, possibly cut short anywhere) decoded by ws.ReadHeader+payload reads, ws.ReadFrame and the streaming Reader from 10 kinds of io.Reader (plain, *bufio.Reader of 16/19/64/4096 bytes, nested, one that already served handshake bytes, bytes.Reader, bytes.Buffer, Read-only wrapper) under one chunk plan: same headers, payloads, frame count and end error (io.EOF on a frame boundary, io.ErrUnexpectedEOF inside a frame) from each. A case is non-trivial when both decoders and the encoder were compared with the independent reference codec; distinct = distinct (flag bits, length form, chunk plan) or (reference classification, length code, mask bit, plan) classes.",
 		Assumptions: []string{
 			"reference codec harness/ref written from RFC 6455 §5.2 is correct",
 			"the streaming decoder is observed through wsutil.Reader{SkipHeaderCheck:true}.NextFrame",
 		},
-		Subs: []mon.Sub{subEncodeGrid(), subEncodeRandom(), subBytesPrefix(), subBytesRandom(), subFrames(), subStreamSequences()},
+		Subs: []mon.Sub{subEncodeGrid(), subEncodeRandom(), subBytesPrefix(), subBytesRandom(), subFrames(), subStreamSequences(), subSourceKinds()},
 	})
 }
